@@ -81,11 +81,16 @@ Cl(id, ante, cons) == [id |-> id, on |-> ante, ok |-> (ante => cons)]
 OpenConns(ev, e) == {i \in DOMAIN ev.conns : ev.conns[i].e = e /\ ~ev.conns[i].shut}
 OkDials(ev) == {i \in DOMAIN ev.dials : ev.dials[i].ok}
 
-\* routes allowed right when a successful new/update returns: kept pools count for sure, new pools may or may not be ready yet
+\* routes allowed right when a successful new/update returns: kept pools count for sure, new pools may or may not be ready yet -
+\* and every MultiEndpoint is told separately, so each may already reflect a different subset of the new pools
 Routes0Allowed(g, ev) ==
   LET kept == g.up \cap g.pools \cap Mentioned(ev.mes)
       all == g.up \cap Mentioned(ev.mes)
-  IN {RoutesFor(g, ev.mes, S) : S \in {T \in SUBSET all : kept \subseteq T}}
+      ns == SortedNames(Names(ev.mes))
+  IN /\ Len(ev.routes0) = Len(ns)
+     /\ \A i \in DOMAIN ns :
+           /\ ev.routes0[i].name = ns[i]
+           /\ \E S \in {T \in SUBSET all : kept \subseteq T} : ev.routes0[i].e = Exp(CurOf(g, ns[i]), EpsOf(ev.mes, ns[i]), S)
 
 GClauses(g, ev, g2) ==
   LET live == g.alive /\ ~g.closed
@@ -102,7 +107,7 @@ GClauses(g, ev, g2) ==
                 /\ {ev.dials[i].e : i \in DOMAIN ev.dials} = NewEps(g, ev)
                 /\ Len(ev.dials) = Cardinality(NewEps(g, ev))
                 /\ \A i \in DOMAIN ev.dials : ev.dials[i].ok),
-    Cl("C15_c", isCfg /\ valid /\ ev.res = "OK" /\ ~g.timed, ev.routes0 \in Routes0Allowed(g, ev)),
+    Cl("C15_c", isCfg /\ valid /\ ev.res = "OK" /\ ~g.timed, Routes0Allowed(g, ev)),
     Cl("C15_d", (isCfg /\ valid /\ ev.res = "OK") \/ (ev.op \in {"down", "up"} /\ live), ev.settled /\ ev.routes = g2.cur),
     \* every MultiEndpoint's current endpoint is one of its configured endpoints (so that a pool exists for it)
     Cl("C15_r", g2.alive /\ ~g2.closed /\ ev.op \notin {"reset", "close"} /\ ev.res \notin {"PANIC", "HANG", "SKIPPED"},
